@@ -8,6 +8,9 @@ use serde_json::{Value, json};
 use std::path::{Path, PathBuf};
 
 pub const KEYS: [&str; 4] = ["rsa4096", "rsa3072p", "ed25519", "ecdsa"];
+/// the keys of the sign histories: the four above plus the signing SUBKEY of the test_assets certificate (verified with
+/// the certificate that owns it)
+pub const KEYS5: [&str; 5] = ["rsa4096", "rsa3072p", "ed25519", "ecdsa", "assetsub"];
 
 pub fn key_files(name: &str) -> (PathBuf, PathBuf, Option<&'static str>) {
     let d = Path::new("/repo/tests/assets/signing_keys");
@@ -16,7 +19,7 @@ pub fn key_files(name: &str) -> (PathBuf, PathBuf, Option<&'static str>) {
         "rsa3072p" => (d.join("secret_rsa3072_protected.asc"), d.join("public_rsa3072_protected.asc"), Some("thisisN0Tasecuredpassphrase")),
         "ed25519" => (d.join("secret_ed25519.asc"), d.join("public_ed25519.asc"), None),
         "ecdsa" => (d.join("secret_ecdsa_p256.asc"), d.join("public_ecdsa_p256.asc"), None),
-        "asset" => (PathBuf::from("/repo/test_assets/secret_key.asc"), PathBuf::from("/repo/test_assets/public_key.asc"), None),
+        "asset" | "assetsub" => (PathBuf::from("/repo/test_assets/secret_key.asc"), PathBuf::from("/repo/test_assets/public_key.asc"), None),
         _ => panic!("unknown key {name}"),
     }
 }
@@ -27,6 +30,20 @@ pub fn signer(name: &str) -> Signer {
     match pass {
         Some(p) => s.with_key_passphrase(p),
         None => s,
+    }
+}
+
+/// sign `p` with the named key ("assetsub": with the first secret subkey of the test_assets key)
+pub fn sign_pkg(p: &mut Package, key: &str, t: u32) -> Result<(), rpm::Error> {
+    if key == "assetsub" {
+        use pgp::Deserializable;
+        let (sec, _, _) = key_files(key);
+        let text = std::fs::read_to_string(sec).expect("read secret key");
+        let (sk, _) = pgp::SignedSecretKey::from_string(&text).expect("parse secret key");
+        let sub = sk.secret_subkeys[0].clone();
+        p.sign_with_timestamp(Signer::new(sub)?, t)
+    } else {
+        p.sign_with_timestamp(signer(key), t)
     }
 }
 
@@ -48,6 +65,9 @@ pub struct FileCfg {
     /// the mode handed over as an i32 outside the 16-bit range (the builder accepts it; header and archive record its
     /// low 16 bits)
     pub mode_wide: Option<i32>,
+    /// write this file's source under the path of another file's source (slot): the same path handed to the builder
+    /// twice, rewritten in between
+    pub src_slot: Option<usize>,
     pub user: Option<String>,
     pub group: Option<String>,
     pub flags: Vec<&'static str>,
@@ -106,6 +126,8 @@ pub struct Cfg {
 fn with_source_date(b: PackageBuilder, sd: u32, off: Option<i32>) -> PackageBuilder {
     match off {
         None => b.source_date(sd),
+        // (i32::MAX stands for: as a SystemTime three quarters of a second into that second)
+        Some(i32::MAX) => b.source_date(std::time::UNIX_EPOCH + std::time::Duration::new(sd as u64, 750_000_000)),
         Some(o) => {
             let dt = chrono::DateTime::from_timestamp(sd as i64, 0).expect("in range")
                 .with_timezone(&chrono::FixedOffset::east_opt(o).expect("offset"));
@@ -156,7 +178,7 @@ impl Workdir {
     }
     pub fn source(&self, idx: usize, f: &FileCfg) -> PathBuf {
         use std::os::unix::fs::PermissionsExt;
-        let p = self.dir.join(format!("src_{idx}"));
+        let p = self.dir.join(format!("src_{}", f.src_slot.unwrap_or(idx)));
         std::fs::write(&p, content(f.len, f.compressible, f.seed)).unwrap();
         std::fs::set_permissions(&p, std::fs::Permissions::from_mode(src_perm(f))).unwrap();
         let fh = std::fs::File::options().write(true).open(&p).unwrap();
@@ -395,6 +417,7 @@ pub fn rand_file(rng: &mut Rng, used: &mut Vec<String>, max_len: usize) -> FileC
         mode,
         src_exec: rng.chance(1, 3),
         src_special: if rng.chance(1, 6) { *rng.pick(&[0o4000u32, 0o2000, 0o1000, 0o6000]) } else { 0 },
+        src_slot: None,
         mode_wide: if kind >= 7 && rng.chance(1, 12) { Some(*rng.pick(&[0o1100644i32, 0o200000 | 0o100600, 65536 + 0o100755])) } else { None },
         user: if rng.chance(1, 3) { Some(rng.pick(&["alice", "bob", "carol", "dave", "root", "eve"]).to_string()) } else { None },
         group: if rng.chance(1, 3) { Some(rng.pick(&["staff", "wheel", "adm", "root", "users"]).to_string()) } else { None },
@@ -479,6 +502,16 @@ pub fn rand_cfg(rng: &mut Rng, max_files: u64, max_len: usize) -> Cfg {
             }
         }
     }
+    // two files installed from one source path that is rewritten in between (same length, same mtime, other content)
+    if !cfg.files.is_empty() && rng.chance(1, 4) {
+        let k = rng.below(cfg.files.len() as u64) as usize;
+        let mut twin = cfg.files[k].clone();
+        twin.dest = rand_dest(rng, &mut used);
+        twin.seed = rng.next();
+        twin.src_slot = Some(cfg.files[k].src_slot.unwrap_or(k));
+        cfg.files[k].src_slot = twin.src_slot;
+        cfg.files.push(twin);
+    }
     // names that differ only in the case of a letter
     if !cfg.files.is_empty() && rng.chance(1, 4) {
         let k = rng.below(cfg.files.len() as u64) as usize;
@@ -539,7 +572,7 @@ pub fn rand_cfg(rng: &mut Rng, max_files: u64, max_len: usize) -> Cfg {
     };
     cfg.source_date = if rng.chance(2, 3) { Some(1_600_000_000) } else { None };
     cfg.late_source_date = rng.chance(1, 2);
-    cfg.source_date_offset = *rng.pick(&[None, None, None, Some(0), Some(3600), Some(-18000), Some(34200)]);
+    cfg.source_date_offset = *rng.pick(&[None, None, None, Some(0), Some(3600), Some(-18000), Some(34200), Some(i32::MAX)]);
     cfg
 }
 
